@@ -269,7 +269,7 @@ def run(ctx):
     ctx.floor("S3", "2022 UDP AES nonce slices", 4, n_nonce)
     # increasing nonce little-endian: loop index starts at 0 (Range{0, len})
     for b in bodies:
-        if (b.impl_self_def or "").endswith("IncreasingNonceGenerator") and b.root == b.defp and b.argc == 1 and b.local_ty(1).startswith("&mut") and "[u8]" in b.local_ty(0):
+        if (b.impl_self_def or "") in _inc_gen_types(prog) and b.root == b.defp and b.argc == 1 and b.local_ty(1).startswith("&mut") and "[u8]" in b.local_ty(0):
             starts = []
             for blk in b.rpo():
                 for s in b.stmts(blk):
@@ -280,7 +280,7 @@ def run(ctx):
             ok = starts == [0] or (not starts and fwd_iter)
             ctx.ob("S3", b.defp, "counter-little-endian", loc(b.sp), ok,
                    f"carry loop starts at index {starts} (SIP004: little-endian counter)" if starts else ("carry loop walks the counter bytes front to back (little-endian)" if ok else "carry loop does not start at the least significant (first) byte"))
-        if (b.impl_self_def or "").endswith("IncreasingNonceGenerator") and b.method == "init":
+        if (b.impl_self_def or "") in _inc_gen_types(prog) and b.root == b.defp and b.argc == 0 and last_seg(b.impl_self_def) in b.local_ty(0):
             ints = [c.get("int") for (c, _) in body_consts(b, False)]
             ctx.ob("S3", b.defp, "counter-starts-before-zero", loc(b.sp), 255 in ints or any((c.get("item") or "").endswith("MAX") for (c, _) in body_consts(b, False)), "initial state 0xFF.. so the first generated nonce is 0")
 
@@ -379,6 +379,20 @@ def _xor_before_mul(b):
         if t and t["k"] == "call" and Callee(t["f"]).method == "wrapping_mul":
             mul_blk = blk
     return xor_blk is not None and mul_blk is not None and order[xor_blk] <= order[mul_blk] and b.dominates(xor_blk, mul_blk)
+
+
+def _inc_gen_types(prog):
+    """the increasing (Shadowsocks) nonce generator type, by role: the generator type whose step takes no buffer (`fn(&mut self) -> &[u8]`)"""
+    c = prog.__dict__.get("_inc_gen")
+    if c is None:
+        from .common import aead_roles
+        _, gens = aead_roles(prog)
+        c = set()
+        for b in prog.prod_bodies():
+            if (b.impl_self_def or "") in gens and b.root == b.defp and b.argc == 1 and b.local_ty(1).startswith("&mut") and "[u8]" in b.local_ty(0):
+                c.add(b.impl_self_def)
+        prog._inc_gen = c
+    return c
 
 
 def _encoder_limit_shape(prog):
